@@ -89,12 +89,24 @@ def check_copies(ctx, case, x):
             exp = [s for s in ref[0] if allowed(s)]
             got = pw.get(w, ([], []))[0]
             # clone labels may legitimately differ when a restriction leaves one producer only; compare the tests
-            strip = lambda l: sorted({(s.split("|")[0].split(".")[0:3].__str__(), s.split("|")[1]) for s in l})
-            if strip(got) != strip(exp) and not known:
+            bare = lambda s: (s.split("|")[0].split(".")[0:3].__str__(), s.split("|")[1])
+            strip = lambda l: sorted({bare(s) for s in l})
+            # Props/C09: restricted_copy_tests_subset (nothing extra), restricted_copy_tests (what is missing is
+            # not needed any more: it is neither a childless node of the unrestricted copy, i.e. a selected test,
+            # nor a parent - in the unrestricted copy - of a node the restricted copy has;
+            # restricted_copy_tests_not_superset: plain equality with the filtered copy is NOT the property)
+            sgot, sexp = set(strip(got)), set(strip(exp))
+            ref_edges = [(bare(c), bare(p)) for c, _, p in (e.split(">") for e in ref[1]) if p.count("|") == 2]
+            with_children = {p for _, p in ref_edges}
+            extra = sorted(sgot - sexp)
+            missing = sorted(sexp - sgot)
+            needed = [e for e in missing if e not in with_children or any(c in sgot and p == e for c, p in ref_edges)]
+            if missing and not needed:
+                ctx.count("copies.restricted_unneeded_setup_dropped")
+            if (extra or needed) and not known:
                 ctx.violate("restricted-copy-differs",
-                            f"the copy of restricted worker {w} is not the copy of {free[0]} minus excluded variants: "
-                            f"missing {[e for e in strip(exp) if e not in strip(got)][:3]}, "
-                            f"extra {[e for e in strip(got) if e not in strip(exp)][:3]}", dict(case))
+                            f"the copy of restricted worker {w} is not the copy of {free[0]} minus excluded variants "
+                            f"(minus what no remaining test needs): missing {needed[:3]}, extra {extra[:3]}", dict(case))
     # links and registers: verified checker + naive oracle
     spec = gl.spec_bridges(x)
     lean_ok = lean_bridges(x)
